@@ -270,9 +270,18 @@ def _parse_npath(npath: str) -> list[_NPathSegment]:
     return segments
 
 
+_NIX_RESERVED_WORDS = frozenset(
+    {"if", "then", "else", "assert", "with", "let", "in", "rec", "inherit"}
+)
+
+
 def _format_attr_name(segment: _NPathSegment) -> str:
     """Format a segment as a binding name, quoting when needed."""
-    if segment.quoted or not _NPATH_IDENTIFIER_RE.match(segment.name):
+    if (
+        segment.quoted
+        or segment.name in _NIX_RESERVED_WORDS
+        or not _NPATH_IDENTIFIER_RE.match(segment.name)
+    ):
         escaped = _escape_nix_string(segment.name, escape_interpolation=True)
         return f'"{escaped}"'
     return segment.name
